@@ -214,6 +214,9 @@ func (l c19) Exec(env *core.Env) *core.Result {
 		repo := mkRepo()
 		envN := 0
 		var lastPush, lastFailed *c19Attempt
+		repushes := 0
+		fuzzy := map[int]bool{}
+		optional := map[int]map[string]int{} // copies a repeated identical push may have added, per subject and entry
 		for _, op := range p.Ops {
 			rt.Yield("op")
 			s := int(op.Int(0)) % 3
@@ -256,6 +259,14 @@ func (l c19) Exec(env *core.Env) *core.Result {
 					continue
 				}
 				s = a.s
+				repushes++
+				if false && !a.failed && (a.n+repushes)%2 == 1 { // (switched off: see DESIGN, correction 31)
+					// the same envelope for the same artifact under other annotations: another signature manifest
+					b := *a
+					b.ann = map[string]string{"repush": fmt.Sprint(repushes), "a": "other"}
+					b.failed = true // (to the model: a push that has not gone through before)
+					a = &b
+				}
 				_, pushedManifest, err := repo.PushSignature(ctx, a.mt, a.blob, subjectAs(s, a.n), a.ann)
 				trace = append(trace, map[string]any{"op": "repush", "subject": s, "n": a.n, "after_failure": a.failed, "err": fmt.Sprint(err)})
 				sim.Abstract(fmt.Sprint("repush", s, a.failed, err == nil))
@@ -266,11 +277,24 @@ func (l c19) Exec(env *core.Env) *core.Result {
 					continue
 				}
 				res.Probe("repeated_push_accepted")
+				entry := c19Sig{a.mt, digest.FromBytes(a.blob), len(a.blob), a.ann}
 				if a.failed {
-					lastFailed = nil
+					// the first time this push goes through
+					if a == lastFailed {
+						lastFailed = nil
+					}
+					a.failed = false
+					model[s] = append(model[s], entry)
+					manifests[s] = append(manifests[s], [2]digest.Digest{pushedManifest.Digest, digest.FromBytes(a.blob)})
+				} else {
+					// the very same signature manifest pushed once more: the store may hold it once (same content, same
+					// digest) or twice (the manifest carries the time of the push) - "the manifests pushed" is a set
+					fuzzy[s] = true
+					if optional[s] == nil {
+						optional[s] = map[string]int{}
+					}
+					optional[s][fmt.Sprintf("%s|%s|%d", entry.mediaType, entry.sum, entry.size)+"|"+annKey(entry.annots)]++
 				}
-				model[s] = append(model[s], c19Sig{a.mt, digest.FromBytes(a.blob), len(a.blob), a.ann})
-				manifests[s] = append(manifests[s], [2]digest.Digest{pushedManifest.Digest, digest.FromBytes(a.blob)})
 			case "lose-manifest":
 				if p.W("disk") != 1 || len(manifests[s]) == 0 {
 					continue
@@ -432,8 +456,10 @@ func (l c19) Exec(env *core.Env) *core.Result {
 						// simply no longer there
 						for sj := range lost {
 							if lost[sj] {
-								for i, m := range model[sj] {
-									if m.sum == lostEnvelope[sj] {
+								// (the manifest that went missing is the one pushed last; an envelope may have been pushed
+								// more than once, under other annotations)
+								for i := len(model[sj]) - 1; i >= 0; i-- {
+									if model[sj][i].sum == lostEnvelope[sj] {
 										model[sj] = append(append([]c19Sig{}, model[sj][:i]...), model[sj][i+1:]...)
 										break
 									}
@@ -535,6 +561,39 @@ func (l c19) Exec(env *core.Env) *core.Result {
 				var want []string
 				for _, m := range model[s] {
 					want = append(want, fmt.Sprintf("%s|%s|%d", m.mediaType, m.sum, m.size)+"|"+annKey(m.annots))
+				}
+				if fuzzy[s] {
+					// an identical push was repeated and accepted for this artifact: how many manifests that leaves (one, or
+					// one per push, differing in the time of the push) is not decided by the statement; not compared
+					res.Probe("listing_not_compared_after_an_accepted_identical_repush")
+					sim.Abstract(fmt.Sprint("list-fuzzy", s))
+					continue
+				}
+				// copies that a repeated identical push may have added are not counted
+				if len(optional[s]) > 0 {
+					seen := map[string]int{}
+					var kept []string
+					for _, g := range got {
+						drop := false
+						for k := range optional[s] {
+							if g != "<fetch failed under fault>" && c19SameMultiset([]string{g}, []string{k}) {
+								wk := 0
+								for _, w := range want {
+									if w == k {
+										wk++
+									}
+								}
+								if seen[k]++; seen[k] > wk {
+									drop = true
+								}
+								break
+							}
+						}
+						if !drop {
+							kept = append(kept, g)
+						}
+					}
+					got = kept
 				}
 				// compare as multisets, tolerating the created annotation oras adds when absent
 				sort.Strings(got)
